@@ -9,13 +9,18 @@ Two generic tools carry it, neither of which reasons about upper/lower blocks, f
     `C15_conjugation` (entrywise complex conjugation of the Hamiltonian conjugates every series; real unperturbed energies) and
     `C15_rotation` (`X ↦ W†XW` for a unitary `W` mixing only states of the same block, the same unperturbed energy and the same keep/eliminate
     status: rotation inside degenerate levels, permutation of such states, relabelling inside a block).
-Relabelling of *blocks*, positive scaling of the whole Hamiltonian and direct sums are not yet instantiated in Lean (scaling by `s > 0` is not a ring map: it
-is checked on the defining equations; direct sums need a block-diagonal embedding) — for them the property rests on the generic theorems plus the
-correspondence `harness/covar_corr.py`, which checks all the relations between pairs of real runs.  PARTIAL in that sense.
+  * `C15_same_pattern`, `C15_relabel`: `U` depends on the problem only through the Hamiltonian series and the *set of kept entries* — two accepted problems on the
+    same states with any block labels, number of blocks, form of `fully_diagonalize` (indices or masks) and tolerance, the same Hamiltonian (up to `c·1`) and the same
+    kept entries have the same `U`: relabelling or regrouping blocks, describing the same elimination pattern differently;
+  * `C15_scale_whole`: `H ↦ s·H` leaves `U` unchanged (checked on the defining equations: scaling is not a ring map) — hence `H̃ ↦ s·H̃`.
+Permutation of basis states across blocks and direct sums are not instantiated in Lean (they change the index type / need a block-diagonal embedding); for them the
+property rests on the generic theorems plus the correspondence `harness/covar_corr.py`, which checks all the relations between pairs of real runs.  PARTIAL in that sense.
 -/
 import PymaVerif.Proofs.Covariance
 import PymaVerif.Proofs.Conjugation
 import PymaVerif.Proofs.Rotation
+import PymaVerif.Proofs.Covariance4
+import PymaVerif.Proofs.Witness
 
 namespace Pyma
 namespace Props
@@ -50,6 +55,53 @@ theorem C15_rotation (p : Problem K) (ts : List (List ℕ × Mat K)) (hwf : p.WF
     (x : String) (hx : x ∈ mainNames) (idx : Idx) :
     mat (p.withTerms ts).blocks main (p.withTerms ts).env x idx = p.rotM ts W (mat p.blocks main p.env x idx) :=
   Problem.C14_rotation p ts hwf hwf' hns hns' W hW hen hin x hx idx
+
+/-- **C15** the transformation depends only on the Hamiltonian (up to `c·1`) and on the set of kept entries -/
+theorem C15_same_pattern [LawfulThresholds K] (p : Problem K) (ts : List (List ℕ × Mat K)) (bo : Array ℕ) (nb : ℕ) (fd : FD) (at_ : ℚ)
+    (hp : p.Accepted) (hq : (p.reshape ts bo nb fd at_).Accepted) (h2 : (2 : K) ≠ 0) (c : K)
+    (hkept : ∀ a b : Fin p.d, (p.reshape ts bo nb fd at_).keptE a.val b.val = p.keptE a.val b.val)
+    (hH : p.sr "H" = (p.reshape ts bo nb fd at_).sr "H" + p.scalarS c) :
+    p.sr "U'" = (p.reshape ts bo nb fd at_).sr "U'" :=
+  Problem.C15_same_pattern p ts bo nb fd at_ hp hq h2 c hkept hH
+
+/-- **C15** relabelling / regrouping blocks -/
+theorem C15_relabel [LawfulThresholds K] (p : Problem K) (ts : List (List ℕ × Mat K)) (bo : Array ℕ) (nb : ℕ) (fd : FD) (at_ : ℚ)
+    (hp : p.Accepted) (hq : (p.reshape ts bo nb fd at_).Accepted) (h2 : (2 : K) ≠ 0)
+    (hkept : ∀ a b : Fin p.d, (p.reshape ts bo nb fd at_).keptE a.val b.val = p.keptE a.val b.val)
+    (hH : p.sr "H" = (p.reshape ts bo nb fd at_).sr "H") :
+    p.sr "U'" = (p.reshape ts bo nb fd at_).sr "U'" :=
+  Problem.C15_relabel p ts bo nb fd at_ hp hq h2 hkept hH
+
+/-- **C15** scaling the whole Hamiltonian leaves `U` unchanged -/
+theorem C15_scale_whole [LawfulThresholds K] (p : Problem K) (ts : List (List ℕ × Mat K)) (bo : Array ℕ) (nb : ℕ) (fd : FD) (at_ : ℚ)
+    (hp : p.Accepted) (hq : (p.reshape ts bo nb fd at_).Accepted) (h2 : (2 : K) ≠ 0) (s : K)
+    (hkept : ∀ a b : Fin p.d, (p.reshape ts bo nb fd at_).keptE a.val b.val = p.keptE a.val b.val)
+    (hH : (p.reshape ts bo nb fd at_).sr "H" = p.scalarS s * p.sr "H") :
+    (p.reshape ts bo nb fd at_).sr "U'" = p.sr "U'" :=
+  Problem.C15_scale_whole p ts bo nb fd at_ hp hq h2 s hkept hH
+
+/-! non-vacuity: the three-block witness `w3` with its blocks relabelled `0,1,2 ↦ 2,0,1` -/
+def w3r : Problem ℚ := w3.reshape w3.terms #[2, 0, 1] 3 .none w3.atol
+
+theorem w3r_accepted : w3r.Accepted where
+  wf := by decide
+  blocks_lt := by decide
+  atol_nonneg := by decide +kernel
+  herm := by decide
+  h0_diag := by decide
+  elim_symm := by decide
+  diag_kept := by decide
+  gap := by decide +kernel
+  comm_trans := by decide
+  no_shared := by decide
+
+example : w3.sr "U'" = w3r.sr "U'" := by
+  apply C15_relabel w3 w3.terms #[2, 0, 1] 3 .none w3.atol w3_accepted w3r_accepted (by norm_num)
+  · decide +kernel
+  · ext m a b
+    have h1 : coeff m (w3.sr "H") a b = _ := g_H w3_accepted.wf (toList m) a b
+    have h2 : coeff m (w3r.sr "H") a b = _ := g_H (p := w3r) w3r_accepted.wf (toList m) a b
+    exact h1.trans h2.symm
 
 end Props
 end Pyma
